@@ -8,6 +8,7 @@ function of (root seed, unit index, tree under test).
 import hashlib
 import json
 import os
+import re
 import shutil
 import subprocess
 import tempfile
@@ -99,6 +100,8 @@ def hot_offsets(canon):
     return sorted(hot)
 
 
+INDEX_READ = re.compile(r"\b(?!str\b)[A-Za-z_]\w*\[")
+
 DEFAULT_PLAN = {
     "n_inputs": 8,
     "maxlen": 32,
@@ -161,6 +164,7 @@ def _simulate_built(unit, P, root, uidx, comp, drv, scratch, res):
     meta = comp["meta"]
     flags = meta["flags"]
     caps = sched.Caps(flags)
+    caps.poison_restart = not INDEX_READ.search(unit["source"])
     want = set(P["want"])
     faults = set(P["faults"])
     stats = {"canonical_runs": 0, "scheduled_runs": 0, "sessions": 0, "api_calls": 0, "bytes_fed": 0, "ticks": 0,
